@@ -5,10 +5,11 @@ from props import pyref
 
 class P(StreamProperty):
     pid = 'C03'
-    module = 'OpenFecVerif.Props.C03'
-    theorems = ['C03_success_is_rank_test', 'C03_outcome_payload_free', 'C03_solve_unique', 'C03_solve_sound', 'C03_solve_iff_full_rank']
+    module = 'OpenFecVerif.Props.C03Session'
+    theorems = ['C03_success_is_rank_test', 'C03_outcome_payload_free', 'C03_solve_unique', 'C03_solve_sound', 'C03_solve_iff_full_rank',
+                'C03_finish_ok_iff_determined', 'C03_determined_by_received', 'C03_few_equations_undetermined']
     rule = ('LDPC decoder sessions followed by of_finish_decoding: all 2^n receive sets for n<=nmax over a grid (k 1..8, r 3..8, N1 3..5, several seeds), '
-            'each in increasing / shuffled order and through both APIs, plus sampled blocks (k up to 600 quick / 5000 thorough) with loss rates around the threshold; '
+            'each in increasing / shuffled order, with and without duplicate submissions (the set is what counts) and through both APIs, plus sampled blocks (k up to 600 quick / 5000 thorough) with loss rates around the threshold; '
             'oracle (independent of the model): completion after finish <=> the GF(2) rank condition "unknown columns of H have full column rank", computed in Python '
             'from the matrix the session itself dumped; non-trivial = cases that iterative decoding alone did not complete')
 
@@ -90,6 +91,9 @@ class P(StreamProperty):
                             if tier == 'quick' and cfg.n >= 8 and rng.random() < (0.7 if cfg.n == 8 else 0.9): continue
                             order = list(sub)
                             if i % 3 == 1: rng.shuffle(order)
+                            if i % 5 == 2 and order:
+                                # duplicates (same set): some symbols are submitted again, early ones again at the very end
+                                rng.shuffle(order); order = order + [rng.choice(order) for _ in range(rng.randint(1, 3))]
                             cases.append(self.mk('s%d' % i, cfg, order, 'stream' if i % 2 == 0 else 'table')); i += 1
         nbig = 150 if tier == 'quick' else 3000
         for j in range(nbig):
@@ -98,7 +102,13 @@ class P(StreamProperty):
             cfg = gens.Cfg('ldpc', k, r, N1=rng.choice([3, 3, 4, 5, 7]) if r >= 7 else 3, seed=rng.randint(1, 2 ** 31 - 2))
             sub = gens.ldpc_loss_subset(rng, cfg)
             order = list(sub); rng.shuffle(order)
-            cases.append(self.mk('b%d' % j, cfg, order, rng.choice(['stream', 'table'])))
+            if j % 2 == 1 and order:
+                # the same set with duplicates: repair and source symbols submitted a second time after they have been consumed
+                dups = rng.sample(order, min(len(order), rng.randint(1, 6)))
+                reps = [e for e in order if e >= cfg.k]
+                if reps: dups.append(rng.choice(reps))
+                order = order + dups
+            cases.append(self.mk('b%d' % j, cfg, order, rng.choice(['stream', 'table']) if j % 2 == 0 else 'stream'))
         return cases
 
     def extra_stats(self, cases, res):
